@@ -261,6 +261,33 @@ def _pkg_of(filename, roots):
     return None
 
 
+_PREIMPORTED = set()
+
+
+def preimport(pkg):
+    """Import every submodule of ``pkg`` once per process.  ufo2ft imports some
+    modules lazily inside functions; module and class bodies executing on first
+    use would otherwise be counted as crash points in a cold interpreter but not
+    in a warm worker, and one seed would no longer be one execution."""
+    if pkg in _PREIMPORTED:
+        return
+    _PREIMPORTED.add(pkg)
+    import importlib
+    import pkgutil
+
+    mod = importlib.import_module(pkg)
+    path = getattr(mod, "__path__", None)
+    if not path:
+        return
+    for info in pkgutil.walk_packages(path, pkg + "."):
+        if info.name.endswith("__main__"):
+            continue
+        try:
+            importlib.import_module(info.name)
+        except Exception:  # noqa: BLE001 - optional dependency missing
+            pass
+
+
 class TraceFault:
     """Counts crash points (function entries, or executed lines, of code that
     lives in the selected packages) and raises at the scheduled one.
@@ -281,6 +308,7 @@ class TraceFault:
         self.sites = set()
         self._cache = {}
         for p in self.pkgs:
+            preimport(p)
             mod = __import__(p)
             for sub in p.split(".")[1:]:
                 mod = getattr(mod, sub)
